@@ -181,8 +181,8 @@ def run(tier, seed):
                sfc_models.equation_parser.EquationParser.ParseString, sfc_models.models.Model.AddExogenous,
                sfc_models.models.Model.AddInitialCondition, sfc_models.models.Model._ProcessExogenous,
                sfc_models.models.Model._GenerateInitialConditions)
-    T = 120 if tier == 'quick' else 400
-    chk.bounds = {'horizon': '0..2 (3 for scalar/tuple), symbolic, set on the solver and via MaxTime=', 'exogenous': 'list length <= 4 with symbolic float '
+    T = 240 if tier == "quick" else 600
+    chk.bounds = {'horizon': '0..2 (3 for scalar/tuple), symbolic, set on the solver and via MaxTime=', 'exogenous': 'list length <= 3 with symbolic float '
                   'values in [-100,100]; float scalar (broadcast); tuple', 'initial condition': 'symbolic float on an endogenous, lagged, decorative, '
                   'constant variable', 'reduction': 'on/off (symbolic bool)', 'per_condition_timeout_s': T}
     chk.bounds['E2 part'] = 'block shapes %r x T 0..2(3) x exogenous length T..T+2 x initial value x reduction on/off; exogenous VALUES symbolic reals in [-100,100]' % (sorted(E2_BLOCKS),)
